@@ -9,6 +9,7 @@ WAVES = [
     ('Seventh wave', ('mutM', 'mutN'), 'language, numpy and pandas subtleties: label against position, unstable orderings, late binding, consumed iterators, swallowed keywords, shallow copies'),
     ('Eighth wave', ('mutO',), 'one change per property: the slip in symmetric code - one of two sibling sites gets the other sibling\'s name, index, comparison or offset'),
     ('Ninth wave', ('mutP',), 'one change per property: the statement-level accident a merge, a rebase or a hasty revert leaves behind - a statement executed twice, two statements swapped, a statement moved one indentation level, an `else` re-attached'),
+    ('Tenth wave', ('mutQ',), 'one change per property: the well-meant improvement - a fix or optimisation that is right for the case its author had in mind and changes what the property promises elsewhere'),
 ]
 m = json.load(open(os.path.join(ROOT, 'seeded', 'MATRIX.json')))
 have = set(m if isinstance(m, dict) else [r.get('id') for r in m])
